@@ -967,12 +967,13 @@ def _max_overlap_pair(images, enforce_user_order):
     if si < sj:  # pragma: no branch
         i, j = j, i
 
+    overlap_area = m[i, j]
+
     if i < j:  # pragma: no branch
         j -= 1
 
     im1 = images.pop(i)  # reference image
     im2 = images.pop(j)
-    overlap_area = m[i, j]
 
     # Sort the remaining of the input list of images by overlap area
     # with the reference image (in decreasing order):
